@@ -281,16 +281,28 @@ fn case(m: &mut Mon, r: &mut Rng, _idx: u64) {
             let (xu, yi) = (ubig(&a), ibig(nb, &b));
             let (xi, yu) = (ibig(na, &a), ubig(&b));
             m.check("mixed_div", &format!("d{}/q{}/{}", gen::size_class(lb), qclass, signs), nontriv, &|| desc("mixed_div"), || {
+                // every ownership form of the mixed-type operators is a separate macro arm: rotate through them
+                let form = (h ^ (h >> 7)) % 4;
                 let (wq, wr) = trunc(&mua, &mib);
-                eq_i(&(&xu / &yi), &wq, "u/i")?;
-                eq_u(&(&xu % &yi), &wr, "u%i")?;
-                let (q, rm) = (&xu).div_rem(&yi);
+                let (q1, r1, (q, rm)) = match form {
+                    0 => (&xu / &yi, &xu % &yi, (&xu).div_rem(&yi)),
+                    1 => (xu.clone() / yi.clone(), xu.clone() % yi.clone(), xu.clone().div_rem(yi.clone())),
+                    2 => (&xu / yi.clone(), &xu % yi.clone(), (&xu).div_rem(yi.clone())),
+                    _ => (xu.clone() / &yi, xu.clone() % &yi, xu.clone().div_rem(&yi)),
+                };
+                eq_i(&q1, &wq, "u/i")?;
+                eq_u(&r1, &wr, "u%i")?;
                 eq_i(&q, &wq, "u.div_rem(i).q")?;
                 eq_u(&rm, &wr, "u.div_rem(i).r")?;
                 let (wq, wr) = trunc(&mia, &mub);
-                eq_i(&(&xi / &yu), &wq, "i/u")?;
-                eq_i(&(&xi % &yu), &wr, "i%u")?;
-                let (q, rm) = xi.clone().div_rem(yu.clone());
+                let (q1, r1, (q, rm)) = match form {
+                    0 => (&xi / &yu, &xi % &yu, (&xi).div_rem(&yu)),
+                    1 => (xi.clone() / yu.clone(), xi.clone() % yu.clone(), xi.clone().div_rem(yu.clone())),
+                    2 => (&xi / yu.clone(), &xi % yu.clone(), (&xi).div_rem(yu.clone())),
+                    _ => (xi.clone() / &yu, xi.clone() % &yu, xi.clone().div_rem(&yu)),
+                };
+                eq_i(&q1, &wq, "i/u")?;
+                eq_i(&r1, &wr, "i%u")?;
                 eq_i(&q, &wq, "i.div_rem(u).q")?;
                 eq_i(&rm, &wr, "i.div_rem(u).r")?;
                 let mut t = xi.clone();
